@@ -93,7 +93,19 @@ def main():
                 json.dump(r, open(os.path.join(dst, "detected-" + n), "w"), indent=1)
             except Exception:
                 pass
-    json.dump(meta, open(os.path.join(dst, "meta.json"), "w"), indent=1)
+    mp = os.path.join(dst, "meta.json")
+    if os.path.exists(mp):
+        try:
+            oldm = json.load(open(mp))
+            for k in ("needs", "breaks_property", "history"):
+                if k in oldm and k not in meta:
+                    meta[k] = oldm[k]
+            # remember earlier outcomes (a check may have been strengthened since)
+            hist = meta.setdefault("history", [])
+            hist.append({"detected_quick": oldm.get("detected_quick"), "detected_thorough": oldm.get("detected_thorough")})
+        except Exception:
+            pass
+    json.dump(meta, open(mp, "w"), indent=1)
     shutil.rmtree(S, ignore_errors=True)
     print("%s-%s demo_clean=%s demo_mut_fails=%s suite=%s detected_quick=%s %s" % (
         pid, k, meta["demo_passes_clean"], meta["demo_fails_with_change"], meta.get("existing_suite_passes"),
